@@ -25,6 +25,30 @@ fn prop_seed(prop: &str, seed: u64) -> u64 {
     h ^ seed.wrapping_mul(0x9E3779B97F4A7C15)
 }
 
+fn describe_case(i: usize, c: &fw::FwCase, run: &fw::FwRun) -> String {
+    let ms: Vec<String> = c.machines.iter().map(|m| m.serialize()).collect();
+    let calls: Vec<String> = c
+        .calls
+        .iter()
+        .zip(run.calls.iter())
+        .map(|((t, evs), rec)| {
+            let e: Vec<String> = evs
+                .iter()
+                .map(|e| {
+                    let mut t = vec![];
+                    enc::enc_event(e, &mut t);
+                    format!("{}{}", e, if [4, 6, 8, 9].contains(&t[0]) { format!("#{}", t[1]) } else { String::new() })
+                })
+                .collect();
+            format!("t={} [{}] -> {} action(s)", t, e.join(","), rec.actions.len())
+        })
+        .collect();
+    format!(
+        "case={} machines={:?} max_padding_frac={} max_blocking_frac={} t0={} rng_script={:?} calls={:?}",
+        i, ms, c.fpad, c.fblk, c.t0, c.script, calls
+    )
+}
+
 fn cmd_fw(args: &[String]) {
     let prop = arg(args, "--prop").expect("--prop");
     let seed: u64 = arg(args, "--seed").map(|s| s.parse().unwrap()).unwrap_or(1);
@@ -66,6 +90,9 @@ fn cmd_fw(args: &[String]) {
         }
         actions += run.calls.iter().map(|c| c.actions.len()).sum::<usize>();
         if props::nontrivial(&prop, &c, &run) {
+            if nontrivial.len() < 3 {
+                writeln!(meta, "sample {}", describe_case(i, &c, &run)).unwrap();
+            }
             nontrivial.insert(toks.clone());
         }
         if let Some(v) = props::monitor(&prop, &c, &run) {
